@@ -8,7 +8,7 @@ shape=eval(sys.argv[2])
 m=Machine(prog,res)
 if hasattr(h,'setup_machine'): h.setup_machine(m, shape, {})
 def go():
-    r=engine.explore(m, lambda ctx: h.run(ctx, shape, {}))
+    r=engine.explore(m, lambda ctx: h.run(ctx, shape, {'known_active': list(getattr(h,'KNOWN_MATCHERS',{}))}))
     st=r['stats']; print('paths',st.paths,'checks',st.solver_checks,'solver_s',round(st.solver_time,2),'viol',len(r['violations']),r['unsupported'][:2])
     for v in r['violations'][:2]: print(v)
 t0=time.time()
